@@ -32,6 +32,9 @@ EXPR = {
     "float_exp": "1e10",
     "float_exp_neg": "1.5e-3",
     "float_big": "123456789.125",
+    "tuple_index_chain": "a.0.1",
+    "tuple_index_chain_spaced": "a.0 .1",
+    "tuple_index_method": "a.0.b()",
     "str_empty": '""',
     "str": '"hello"',
     "str_sq": "'single'",
@@ -48,6 +51,12 @@ EXPR = {
     "str_braces": '"{x} and }{"',
     "str_unicode": '"héllo 𝄞"',
     "str_hash": '"a # b"',
+    # raw (unescaped) control characters and line breaks inside literals
+    "str_triple_multi": '"""line one\nline two\n"""',
+    "str_triple_crlf": '"""line one\r\nline two\r\n"""',
+    "str_triple_cr": '"""a\rb"""',
+    "str_triple_quotes_in": '"""say "hi" there"""',
+    "str_raw_tab": '"a\tb"'.replace("\\t", "\t"),
     "bytes": 'b"ab"',
     "bytes_hex": 'b"\\x00\\xff"',
     "bytes_quote": 'b"a\\"b"',
@@ -157,6 +166,7 @@ EXPR = {
     "fstr_quote": "f\"say \\\"{a}\\\"\"",
     "fstr_sq": "f'{a}'",
     "fstr_fmt_spec": 'f"{a:.2f}"',
+    "fstr_debug": 'f"{a:?} and {b.c:?}"',
     "range": "0..10",
     "range_incl": "0..=10",
     "range_call": "range(10)",
